@@ -36,6 +36,7 @@ class FakeFS:
         self.dirs = set()
         self.trace = []
         self.nops = 0
+        self.nmut = 0
         self.fault_at = None
         self.fault_hook = None
 
@@ -70,10 +71,12 @@ class FakeFS:
                 r = core.or_(r, f.exists)
         return r
 
-    def mutate(self, op, path, **kw):
-        """record a mutating operation; raise the injected fault if this is the chosen one"""
+    def mutate(self, op, path, mutating=True, **kw):
+        """record a (mutating) operation = fault point; raise the injected fault if this is the chosen one"""
         k = self.nops
         self.nops += 1
+        if mutating:
+            self.nmut += 1
         self.trace.append((k, op, str(path), kw))
         if self.fault_at is not None and k == self.fault_at:
             raise InjectedFault(f"injected fault at operation {k}: {op} {path}")
@@ -291,6 +294,7 @@ class FakeFile:
         else:
             if f is None or not builtins.bool(f.exists):
                 raise FileNotFoundError(f"[Errno 2] No such file or directory: '{self.path}'")
+            F.mutate("open_read", self.path, mutating=False)
             self.pos = f.size if "a" in mode else 0
         self.f = f
         self.writing = writing
